@@ -4,7 +4,8 @@
 (* Each line of the trace is                                                *)
 (*   [ev |-> "reset", case |-> n]                                          *)
 (*   [ev |-> "step",  case |-> n, op |-> <op record>, ret |-> STRING,      *)
-(*    mem |-> Seq([u,k,t]), saved |-> Seq([k,t]), saveret |-> STRING]      *)
+(*    mem |-> Seq([u,k,t]), saved |-> Seq([k,t]), saveret |-> STRING,      *)
+(*    read |-> Seq(uid)]   (what a Read step returned; <<>> otherwise)     *)
 (* The judge never blocks: deviations become witnesses and the spec state   *)
 (* is resynchronised on the observed one.                                   *)
 (***************************************************************************)
@@ -28,6 +29,8 @@ Judge(e) ==
   IN  (IF e.ret = "panic" THEN {<<"C08", name, "panic">>} ELSE {})
       \cup (IF e.ret # "panic" /\ e.ret # expr THEN {<<"C08", name, "ret">>} ELSE {})
       \cup (IF e.ret # "panic" /\ Strip(e.mem) # exp.els THEN {<<"C08", name, "els">>} ELSE {})
+      \cup (IF name \in Readers /\ e.ret # "panic" /\ e.read # ReadResult(cur, e.op)
+            THEN {<<"C08", "Read:" \o e.op.what, "result">>} ELSE {})
       \cup (IF e.saveret # "ok" THEN {<<"C08", "save", e.saveret>>}
             ELSE {<<"C08">> \o v : v \in Viol_Save(e.mem, e.saved)})
 
